@@ -148,11 +148,77 @@ func genShared() {
 			}
 		}
 	}
+	// C06: what the per-connection code of proxyserver writes through the shared *Server: a field of the receiver,
+	// or a field of a local variable that merely aliases a receiver field (x := server.f; x.g = ...)
+	connWrites := []string{}
+	ps := parseFile("pkg/proxyserver/proxyserver.go")
+	for _, fn := range [][2]string{{"Server", "serveConn"}, {"Server", "tlsHandshakeWithTimeout"}, {"", "updateConnContext"}} {
+		fd := findFunc(ps, fn[0], fn[1])
+		if fd == nil {
+			issue("shared: %s not found in proxyserver.go", fn[1])
+			continue
+		}
+		recv := ""
+		if fd.Recv != nil && len(fd.Recv.List) > 0 && len(fd.Recv.List[0].Names) > 0 {
+			recv = fd.Recv.List[0].Names[0].Name
+		}
+		root := func(e ast.Expr) (string, bool) { // leftmost identifier of a selector / index / deref chain; plain = no call in it
+			for {
+				switch v := e.(type) {
+				case *ast.SelectorExpr:
+					e = v.X
+					continue
+				case *ast.IndexExpr:
+					e = v.X
+					continue
+				case *ast.StarExpr:
+					e = v.X
+					continue
+				case *ast.ParenExpr:
+					e = v.X
+					continue
+				case *ast.Ident:
+					return v.Name, true
+				}
+				return "", false
+			}
+		}
+		alias := map[string]string{}
+		ast.Inspect(fd.Body, func(n ast.Node) bool {
+			as, ok := n.(*ast.AssignStmt)
+			if !ok {
+				return true
+			}
+			for i, l := range as.Lhs {
+				if id, ok := l.(*ast.Ident); ok && i < len(as.Rhs) && len(as.Lhs) == len(as.Rhs) {
+					// x := server.f  /  x = server.f   (no call, no composite literal, no &T{}): x aliases shared state
+					if r, plain := root(as.Rhs[i]); plain && recv != "" && (r == recv || alias[r] != "") {
+						if _, isSel := as.Rhs[i].(*ast.SelectorExpr); isSel {
+							alias[id.Name] = src(as.Rhs[i])
+						}
+					}
+					continue
+				}
+				if as.Tok == token.DEFINE {
+					continue
+				}
+				if r, ok := root(l); ok {
+					if recv != "" && r == recv {
+						connWrites = append(connWrites, fn[1]+":"+src(l))
+					} else if a := alias[r]; a != "" {
+						connWrites = append(connWrites, fn[1]+":"+src(l)+"<-"+a)
+					}
+				}
+			}
+			return true
+		})
+	}
 	var sb strings.Builder
 	sb.WriteString("-- GENERATED by /verif/extract from the fingerprinting packages and pkg/http2/server.go on every run. Do not edit.\n")
 	sb.WriteString("namespace Fp.Gen.Shared\n")
 	fmt.Fprintf(&sb, "def packageVars : List String := [%s]\n", joinQuoted(globals))
 	fmt.Fprintf(&sb, "def writtenAfterInit : List String := [%s]\n", joinQuoted(shared))
+	fmt.Fprintf(&sb, "def connSharedWrites : List String := [%s]\n", joinQuoted(connWrites))
 	fmt.Fprintf(&sb, "def captureWrites : List String := [%s]\n", joinQuoted(capture))
 	fmt.Fprintf(&sb, "def marshalHead : List String := [%s]\n", joinQuoted(marshalHead))
 	sb.WriteString("end Fp.Gen.Shared\n")
